@@ -61,7 +61,7 @@ def simpleEff : RInstr → Option (Nat × Nat)
   | .clone => some (1, 1)
   | .drop => some (1, 0)
   | .dup => some (1, 2)
-  | .loadSingleton _ _ => some (0, 0)
+  | .loadSingleton _ _ => some (1, 1)     -- replaces the default below it when the host provides a value
   | .getGlob _ => some (0, 1)
   | .setGlob _ => some (1, 0)
   | .assign => some (2, 0)
